@@ -85,6 +85,48 @@ MUTANTS = {
     "c05-explicit-constraint": ("C05", "EasyFEA/Simulations/_simu.py",
         "            dofsValues = np.zeros_like(dofsValues)\n",
         "            dofsValues = dofsValues\n"),
+    # ---- C11
+    "c11-sqrt-cache-never-refreshed": ("C11", "EasyFEA/Models/Elastic/_laws.py",
+        "        if self.__sqrt_C is None or self.__sqrt_S is None:\n",
+        "        if (self.__sqrt_C is None or self.__sqrt_S is None) and not getattr(self, \"_sq\", False):\n            self._sq = True\n"),
+    "c11-model-update-no-notify": ("C11", "EasyFEA/Models/_utils.py",
+        "        if value:\n            self._Notify(\"The model has been modified.\")\n",
+        "        if value and False:\n            self._Notify(\"The model has been modified.\")\n"),
+    "c11-read-keeps-stale-C": ("C11", "EasyFEA/Models/Elastic/_laws.py",
+        "        if self.needUpdate:\n            self._Update()\n            self.Need_Update(False)\n        return self.__C.copy()\n",
+        "        if self.needUpdate and not hasattr(self, '_once'):\n            self._once = True\n            self._Update()\n            self.Need_Update(False)\n        return self.__C.copy()\n"),
+    # ---- C04
+    "c04-duplicates-last-wins": ("C04", "EasyFEA/Simulations/_simu.py",
+        "            x = sparse.csr_matrix(\n                (dofsValues, (dofs, np.zeros_like(dofs))),\n                shape=(size, 1),\n                dtype=np.float64,\n            )\n",
+        "            _x = np.zeros(size)\n            _x[dofs] = dofsValues\n            x = sparse.csr_matrix(_x[:, None])\n"),
+    "c04-lagrange-row-value": ("C04", "EasyFEA/Simulations/Solvers.py",
+        "            b[i] = values[0]\n",
+        "            b[i] = 0.0\n"),
+    "c04-orphan-diagonal-dropped": ("C04", "EasyFEA/Simulations/_simu.py",
+        "            diag[orphanDofs] = 1.0\n            A = A + sparse.diags(diag, format=\"csr\")\n            # Matplotlib.Init_Axes().spy(A)",
+        "            diag[orphanDofs] = 0.0\n            A = A + sparse.diags(diag, format=\"csr\")\n            # Matplotlib.Init_Axes().spy(A)"),
+    "c04-aic-sign": ("C04", "EasyFEA/Simulations/Solvers.py",
+        "    bi -= Aic @ xc\n",
+        "    bi -= 0.5 * (Aic @ xc)\n"),
+    "c04-dof-lookup-order": ("C04", "EasyFEA/FEM/_boundary_conditions.py",
+        "            idx = availableUnknowns.index(direction)\n",
+        "            idx = d if len(unknowns) == len(availableUnknowns) else availableUnknowns.index(direction)\n"),
+    # ---- C19
+    "c19-save-iter-no-copy": ("C19", "EasyFEA/Simulations/_inelastic.py",
+        "        self.__zOld = {et: arr.copy() for et, arr in self.__z.items()}\n",
+        "        self.__zOld = self.__z\n"),
+    "c19-construct-commits": ("C19", "EasyFEA/Simulations/_inelastic.py",
+        "            self.__z[groupElem.elemType] = z_e_pg\n",
+        "            self.__z[groupElem.elemType] = z_e_pg\n            self.__zOld[groupElem.elemType] = z_e_pg\n"),
+    "c19-spectral-p-sign": ("C19", "EasyFEA/Models/InElastic/_behavior.py",
+        "        z_e_pg[..., A.start] = pOld_e_pg + res.dGamma\n",
+        "        z_e_pg[..., A.start] = pOld_e_pg - res.dGamma\n"),
+    "c19-condense-sign": ("C19", "EasyFEA/Models/InElastic/_behavior.py",
+        "        return C_in - TensorProd(c_iz, c_zi) / c_zz\n",
+        "        return C_in + TensorProd(c_iz, c_zi) / c_zz\n"),
+    "c19-planestress-loose": ("C19", "EasyFEA/Models/InElastic/_behavior.py",
+        "            if np.max(np.abs(r_e_pg)) < tol:\n                break\n",
+        "            if np.max(np.abs(r_e_pg)) < 1e6 * tol:\n                break\n"),
 }
 
 
